@@ -262,3 +262,18 @@ def h7(ctx: Ctx) -> None:
     from .c02 import check_order_ids
 
     check_order_ids(ctx)
+
+
+@rule("C03.H8", "necessary for `never raises`: a round that matched a pair with a limit order ends with a price (the walk raises on `price is None`); the price of a pair is the limit order's own, whatever its value, 0 included", "T6 decision table (same rule as C01.R2)", floor=1)
+def h8(ctx: Ctx) -> None:
+    from .c01 import r2 as price_table_rule
+
+    price_table_rule(ctx)
+
+
+
+@rule("C03.H9", "necessary for the stop condition: the kind of an order (market / limit) is decided by value, so an order that is equal to a limit order is treated as one by the executability test and by the walk", "T13 lint over Market, OrderBook, Order, OrderKind", floor=40)
+def h9(ctx: Ctx) -> None:
+    from .events import check_identity_comparisons
+
+    check_identity_comparisons(ctx, ["Market", "OrderBook", "Order", "OrderKind"], floor=40)
